@@ -255,4 +255,337 @@ theorem body4_eq (get : Int → Int → Res Bool) (gp : Nat × Nat → Bool) (L 
   rw [setIdx_nat _ _ _ (off + 6 * rs + 2 * j + k) (by omega) (by simp; omega)]
   simp only [tryC_ok, cell, sidePos, hB']
 
+/-- the four writes of one `k` -/
+def kstep (gp : Nat × Nat → Bool) (L : Nat) (c : Bool) (i off j k : Nat) (st : List Int) : List Int :=
+  (((st.set (off + 2 * j + k) (cell gp L c i 0 j k)).set (off + 2 * rsz L c i + 2 * j + k) (cell gp L c i 1 j k)).set
+    (off + 4 * rsz L c i + 2 * j + k) (cell gp L c i 2 j k)).set (off + 6 * rsz L c i + 2 * j + k) (cell gp L c i 3 j k)
+
+theorem kstep_length (gp : Nat × Nat → Bool) (L : Nat) (c : Bool) (i off j k : Nat) (st : List Int) :
+    (kstep gp L c i off j k st).length = st.length := by simp [kstep]
+
+when_kernel Gzx.Gen.K11b.extractBits in
+/-- one domino `j`: the `k` loop makes two iterations -/
+theorem body3_eq (get : Int → Int → Res Bool) (gp : Nat × Nat → Bool) (L : Nat) (c : Bool) (i off j : Nat) (st : List Int)
+    (hi : i < L) (hj : j < rsz L c i) (hlen : off + 8 * rsz L c i ≤ st.length) (hr : ReadsOK get gp L c i)
+    {offI rsI loI hiI : Int} (h1 : offI = off) (h2 : rsI = rsz L c i) (h3 : loI = (i * 2 : Nat))
+    (h4 : hiI = (baseMatrixSize L c - 1 - i * 2 : Nat)) :
+    Gen.K11b.extractBits_body3 get (amI L c) offI rsI loI hiI (j : Int) st =
+      .next (kstep gp L c i off j 1 (kstep gp L c i off j 0 st)) := by
+  unfold Gen.K11b.extractBits_body3
+  dsimp only
+  have ht : tripUp 0 2 1 = 2 := by decide
+  rw [ht, loop_succ, body4_eq get gp L c i off j 0 st hi hj (by omega) hlen hr (jI := (j : Int)) (coI := (j : Int) * 2) (kI := 0) h1 h2 h3 h4 rfl (by omega) rfl]
+  dsimp only
+  rw [loop_succ, body4_eq get gp L c i off j 1 _ hi hj (by omega) (by simp; omega) hr (jI := (j : Int)) (coI := (j : Int) * 2) (kI := 0 + 1) h1 h2 h3 h4 rfl (by omega) rfl]
+  rfl
+
+theorem set4_get (st : List Int) (a0 a1 a2 a3 : Nat) (v0 v1 v2 v3 : Int)
+    (h0 : a0 < st.length) (h1 : a1 < st.length) (h2 : a2 < st.length) (h3 : a3 < st.length) (q : Nat) :
+    ((((st.set a0 v0).set a1 v1).set a2 v2).set a3 v3)[q]? =
+      if a3 = q then some v3 else if a2 = q then some v2 else if a1 = q then some v1 else if a0 = q then some v0 else st[q]? := by
+  simp only [List.getElem?_set, List.length_set, if_pos h0, if_pos h1, if_pos h2, if_pos h3]
+
+theorem kstep_get (gp : Nat × Nat → Bool) (L : Nat) (c : Bool) (i off j k : Nat) (st : List Int)
+    (hj : j < rsz L c i) (hk : k < 2) (hlen : off + 8 * rsz L c i ≤ st.length) (q : Nat) :
+    (kstep gp L c i off j k st)[q]? =
+      if off + 6 * rsz L c i + 2 * j + k = q then some (cell gp L c i 3 j k)
+      else if off + 4 * rsz L c i + 2 * j + k = q then some (cell gp L c i 2 j k)
+      else if off + 2 * rsz L c i + 2 * j + k = q then some (cell gp L c i 1 j k)
+      else if off + 2 * j + k = q then some (cell gp L c i 0 j k) else st[q]? := by
+  unfold kstep
+  exact set4_get st _ _ _ _ _ _ _ _ (by omega) (by omega) (by omega) (by omega) q
+
+/-- state of the walk of layer `i` after `jj` dominoes: everything outside the layer's segment untouched, the first
+    `jj` dominoes of each of the four sides final -/
+def LInv (gp : Nat × Nat → Bool) (L : Nat) (c : Bool) (i off : Nat) (st0 : List Int) (jj : Nat) (st : List Int) : Prop :=
+  st.length = st0.length ∧
+  (∀ q, (q < off ∨ off + 8 * rsz L c i ≤ q) → st[q]? = st0[q]?) ∧
+  (∀ s j k, s < 4 → j < jj → k < 2 → st[off + 2 * s * rsz L c i + 2 * j + k]? = some (cell gp L c i s j k))
+
+theorem LInv_step_out (gp : Nat × Nat → Bool) (L : Nat) (c : Bool) (i off jj : Nat) (st : List Int)
+    (hj : jj < rsz L c i) (hl0 : off + 8 * rsz L c i ≤ st.length) (q : Nat) (hq : q < off ∨ off + 8 * rsz L c i ≤ q) :
+    (kstep gp L c i off jj 1 (kstep gp L c i off jj 0 st))[q]? = st[q]? := by
+  have hl1 : off + 8 * rsz L c i ≤ (kstep gp L c i off jj 0 st).length := by rw [kstep_length]; omega
+  rw [kstep_get gp L c i off jj 1 _ hj (by omega) hl1, kstep_get gp L c i off jj 0 _ hj (by omega) hl0]
+  generalize rsz L c i = rs at *
+  simp (disch := omega) only [if_neg]
+
+theorem LInv_step_old (gp : Nat × Nat → Bool) (L : Nat) (c : Bool) (i off jj : Nat) (st : List Int)
+    (hj : jj < rsz L c i) (hl0 : off + 8 * rsz L c i ≤ st.length) (s j k : Nat) (hs : s < 4) (hlt : j < jj) (hk : k < 2) :
+    (kstep gp L c i off jj 1 (kstep gp L c i off jj 0 st))[off + 2 * s * rsz L c i + 2 * j + k]? =
+      st[off + 2 * s * rsz L c i + 2 * j + k]? := by
+  have hl1 : off + 8 * rsz L c i ≤ (kstep gp L c i off jj 0 st).length := by rw [kstep_length]; omega
+  rw [kstep_get gp L c i off jj 1 _ hj (by omega) hl1, kstep_get gp L c i off jj 0 _ hj (by omega) hl0]
+  generalize rsz L c i = rs at *
+  have hs' : s = 0 ∨ s = 1 ∨ s = 2 ∨ s = 3 := by omega
+  rcases hs' with rfl | rfl | rfl | rfl <;> simp (disch := omega) only [if_neg]
+
+theorem LInv_step_new (gp : Nat × Nat → Bool) (L : Nat) (c : Bool) (i off jj : Nat) (st : List Int)
+    (hj : jj < rsz L c i) (hl0 : off + 8 * rsz L c i ≤ st.length) (s k : Nat) (hs : s < 4) (hk : k < 2) :
+    (kstep gp L c i off jj 1 (kstep gp L c i off jj 0 st))[off + 2 * s * rsz L c i + 2 * jj + k]? =
+      some (cell gp L c i s jj k) := by
+  have hl1 : off + 8 * rsz L c i ≤ (kstep gp L c i off jj 0 st).length := by rw [kstep_length]; omega
+  rw [kstep_get gp L c i off jj 1 _ hj (by omega) hl1, kstep_get gp L c i off jj 0 _ hj (by omega) hl0]
+  generalize rsz L c i = rs at *
+  have hs' : s = 0 ∨ s = 1 ∨ s = 2 ∨ s = 3 := by omega
+  have hk' : k = 0 ∨ k = 1 := by omega
+  rcases hs' with rfl | rfl | rfl | rfl <;> rcases hk' with rfl | rfl <;> simp (disch := omega) only [if_neg, if_pos, if_true]
+
+theorem LInv_step (gp : Nat × Nat → Bool) (L : Nat) (c : Bool) (i off : Nat) (st0 : List Int) (jj : Nat) (st : List Int)
+    (hj : jj < rsz L c i) (hlen : off + 8 * rsz L c i ≤ st0.length) (h : LInv gp L c i off st0 jj st) :
+    LInv gp L c i off st0 (jj + 1) (kstep gp L c i off jj 1 (kstep gp L c i off jj 0 st)) := by
+  unfold LInv at h ⊢
+  obtain ⟨h1, h2, h3⟩ := h
+  have hl0 : off + 8 * rsz L c i ≤ st.length := by omega
+  refine ⟨by simp [kstep_length, h1], ?_, ?_⟩
+  · intro q hq
+    rw [← h2 q hq]
+    exact LInv_step_out gp L c i off jj st hj hl0 q hq
+  · intro s j k hs hjj hk
+    by_cases hlt : j < jj
+    · rw [LInv_step_old gp L c i off jj st hj hl0 s j k hs hlt hk]
+      exact h3 s j k hs hlt hk
+    · have : j = jj := by omega
+      subst this
+      exact LInv_step_new gp L c i off j st hj hl0 s k hs hk
+
+theorem tb_step (L : Nat) (c : Bool) (i : Nat) (hi : i < L) :
+    totalBitsInLayer (L - i) c = 8 * rsz L c i + totalBitsInLayer (L - (i + 1)) c := by
+  obtain ⟨m, hm⟩ : ∃ m, L - i = m + 1 := ⟨L - i - 1, by omega⟩
+  have hm' : L - (i + 1) = m := by omega
+  simp only [rsz, hm, hm', totalBitsInLayer]
+  cases c <;> simp only [Bool.false_eq_true, if_false, if_true] <;> grind
+
+when_kernel Gzx.Gen.K11b.extractBits in
+/-- the walk of one layer -/
+theorem layer_loop (get : Int → Int → Res Bool) (gp : Nat × Nat → Bool) (L : Nat) (c : Bool) (i off : Nat) (st : List Int)
+    (hi : i < L) (hlen : off + 8 * rsz L c i ≤ st.length) (hr : ReadsOK get gp L c i)
+    {offI rsI loI hiI : Int} (h1 : offI = off) (h2 : rsI = rsz L c i) (h3 : loI = (i * 2 : Nat))
+    (h4 : hiI = (baseMatrixSize L c - 1 - i * 2 : Nat)) :
+    ∃ st', loop (Gen.K11b.extractBits_body3 get (amI L c) offI rsI loI hiI) 1 (rsz L c i) 0 st = .next st' ∧
+      LInv gp L c i off st (rsz L c i) st' := by
+  have := loop_inv (ρ := List Int) (Gen.K11b.extractBits_body3 get (amI L c) offI rsI loI hiI)
+    (fun jj st' => LInv gp L c i off st jj st') (rsz L c i) 0 st
+    ⟨rfl, fun _ _ => rfl, fun _ _ _ _ h _ => by omega⟩ (by
+      intro j st' _ hj hinv
+      refine ⟨_, body3_eq get gp L c i off j st' hi (by omega) (by rw [hinv.1]; exact hlen) hr h1 h2 h3 h4, ?_⟩
+      exact LInv_step gp L c i off st j st' (by omega) hlen hinv)
+  simpa using this
+
+/-- the finished layer as a list equation -/
+theorem LInv_take (gp : Nat × Nat → Bool) (L : Nat) (c : Bool) (i off : Nat) (st st' : List Int)
+    (hlen : off + 8 * rsz L c i ≤ st.length) (h : LInv gp L c i off st (rsz L c i) st') :
+    st'.take (off + 8 * rsz L c i) = st.take off ++ (layerPositions L c i).map (fun p => b2i (gp p)) := by
+  obtain ⟨h1, h2, h3⟩ := h
+  apply List.ext_getElem?
+  intro q
+  rw [List.getElem?_take]
+  by_cases hq : q < off
+  · rw [if_pos (by omega), h2 q (Or.inl hq), List.getElem?_append_left (by simp; omega), List.getElem?_take, if_pos hq]
+  · by_cases hq2 : q < off + 8 * rsz L c i
+    · rw [if_pos hq2, List.getElem?_append_right (by simp; omega)]
+      have hlt : (st.take off).length = off := by simp; omega
+      rw [hlt]
+      have key : ∀ s, s < 4 → 2 * s * rsz L c i ≤ q - off → q - off < 2 * (s + 1) * rsz L c i →
+          st'[q]? = ((layerPositions L c i).map (fun p => b2i (gp p)))[q - off]? := by
+        intro s hs ha hb
+        have hb' : q - off < 2 * s * rsz L c i + 2 * rsz L c i := by
+          have : 2 * (s + 1) * rsz L c i = 2 * s * rsz L c i + 2 * rsz L c i := by
+            rw [Nat.mul_add, Nat.add_mul]
+          omega
+        generalize hx : 2 * s * rsz L c i = x at *
+        have e : q = off + x + 2 * ((q - off - x) / 2) + (q - off - x) % 2 := by omega
+        have e2 : q - off = x + 2 * ((q - off - x) / 2) + (q - off - x) % 2 := by omega
+        have hj : (q - off - x) / 2 < rsz L c i := by omega
+        have hk : (q - off - x) % 2 < 2 := by omega
+        have g := layerPositions_get L c i s _ _ hs hj hk
+        have g3 := h3 s _ _ hs hj hk
+        rw [hx] at g g3
+        rw [List.getElem?_map, e2, g]
+        conv => lhs; rw [e]
+        rw [g3]; rfl
+      by_cases c0 : q - off < 2 * rsz L c i
+      · exact key 0 (by omega) (by omega) (by omega)
+      · by_cases c1 : q - off < 4 * rsz L c i
+        · exact key 1 (by omega) (by omega) (by omega)
+        · by_cases c2 : q - off < 6 * rsz L c i
+          · exact key 2 (by omega) (by omega) (by omega)
+          · exact key 3 (by omega) (by omega) (by omega)
+    · rw [if_neg hq2, List.getElem?_eq_none (by simp [layerPositions_length]; omega)]
+
+/-! ### the loop over the layers and the whole function -/
+
+/-- state of `for i, rowOffset := 0, 0; i < layers; i++` after `i` layers -/
+def OInv (gp : Nat × Nat → Bool) (L : Nat) (c : Bool) (i : Nat) (s : List Int × Int × Int) : Prop :=
+  s.2.1 = (i : Int) ∧ ∃ off : Nat, s.2.2 = (off : Int) ∧ off + totalBitsInLayer (L - i) c = totalBitsInLayer L c ∧
+    s.1.length = totalBitsInLayer L c ∧
+    s.1.take off = ((List.range i).flatMap (layerPositions L c)).map (fun p => b2i (gp p))
+
+when_kernel Gzx.Gen.K11b.extractBits in
+theorem body2_step (get : Int → Int → Res Bool) (gp : Nat × Nat → Bool) (L : Nat) (c : Bool)
+    (hr : ∀ i, i < L → ReadsOK get gp L c i) (i : Nat) (s : List Int × Int × Int) (hi : i < L) (h : OInv gp L c i s) :
+    ∃ s', Gen.K11b.extractBits_body2 get c (L : Int) (baseMatrixSize L c : Nat) (amI L c) s = .next s' ∧ OInv gp L c (i + 1) s' := by
+  obtain ⟨st, iI, offI⟩ := s
+  obtain ⟨h1, off, h2, h3, h4, h5⟩ := h
+  simp only at h1 h2 h4 h5
+  subst h1 h2
+  have hstep := tb_step L c i hi
+  unfold Gen.K11b.extractBits_body2
+  dsimp only
+  have hc : decide ((i : Int) < (L : Int)) = true := by simp; omega
+  rw [hc, if_pos rfl]
+  have hrs : (if c = true then ((L : Int) - (i : Int)) * 4 + 9 else ((L : Int) - (i : Int)) * 4 + 12) = ((rsz L c i : Nat) : Int) := by
+    unfold rsz; cases c <;> simp <;> omega
+  rw [hrs, tripUp_one]
+  have ht : (((rsz L c i : Nat) : Int) - 0).toNat = rsz L c i := by omega
+  rw [ht]
+  obtain ⟨st', e, hinv⟩ := layer_loop get gp L c i off st hi (by omega) (hr i hi) (offI := (off : Int)) (rsI := ((rsz L c i : Nat) : Int))
+    (loI := (i : Int) * 2) (hiI := ((baseMatrixSize L c : Nat) : Int) - 1 - (i : Int) * 2) rfl rfl (by omega)
+    (by have : i * 2 + 1 ≤ baseMatrixSize L c := by unfold baseMatrixSize; cases c <;> simp <;> omega
+        omega)
+  rw [e]
+  refine ⟨_, rfl, ?_⟩
+  refine ⟨by simp, off + 8 * rsz L c i, by simp; omega, by omega, by simp [hinv.1, h4], ?_⟩
+  show st'.take (off + 8 * rsz L c i) = _
+  rw [LInv_take gp L c i off st st' (by omega) hinv, h5, List.range_succ, List.flatMap_append]
+  simp
+
+when_kernel Gzx.Gen.K11b.extractBits in
+theorem body2_end (get : Int → Int → Res Bool) (gp : Nat × Nat → Bool) (L : Nat) (c : Bool)
+    (s : List Int × Int × Int) (h : OInv gp L c L s) :
+    Gen.K11b.extractBits_body2 get c (L : Int) (baseMatrixSize L c : Nat) (amI L c) s = .brk s := by
+  obtain ⟨st, iI, offI⟩ := s
+  obtain ⟨h1, _⟩ := h
+  simp only at h1
+  subst h1
+  unfold Gen.K11b.extractBits_body2
+  simp
+
+when_kernel Gzx.Gen.K11b.extractBits in
+theorem body6_eq : @Gen.K11b.extractBits_body6 = @Gen.K11b.extractBits_body2 := rfl
+
+when_kernel Gzx.Gen.K11b.extractBits in
+/-- the layer loop from the freshly made `rawbits` -/
+theorem layers_loop (get : Int → Int → Res Bool) (gp : Nat × Nat → Bool) (L : Nat) (c : Bool) (fuel : Nat) (hf : L < fuel)
+    (hr : ∀ i, i < L → ReadsOK get gp L c i) :
+    ∃ s', whileLoop (Gen.K11b.extractBits_body2 get c (L : Int) (baseMatrixSize L c : Nat) (amI L c)) fuel
+        (List.replicate (totalBitsInLayer L c) 0, 0, 0) = (.brk s' : Ctl _ (List Int)) ∧
+      s'.1 = bitsI ((readPositions L c).map gp) := by
+  obtain ⟨s', e, hinv⟩ := while_inv (ρ := List Int) (Gen.K11b.extractBits_body2 get c (L : Int) (baseMatrixSize L c : Nat) (amI L c))
+    (OInv gp L c) L (fun i st hi h => body2_step get gp L c hr i st hi h) (fun st h => body2_end get gp L c st h)
+    L 0 (List.replicate (totalBitsInLayer L c) 0, 0, 0) fuel (by omega) hf
+    ⟨rfl, 0, rfl, by simp, by simp, by simp⟩
+  refine ⟨s', e, ?_⟩
+  obtain ⟨_, off, _, h3, h4, h5⟩ := hinv
+  have h0 : totalBitsInLayer (L - L) c = 0 := by simp [totalBitsInLayer]
+  rw [h0] at h3
+  rw [List.take_of_length_le (by omega)] at h5
+  rw [h5, readPositions, bitsI, List.map_map]; rfl
+
+when_kernel Gzx.Gen.K11b.extractBits in
+/-- `Decoder.extractBits` for every layer count, both symbol kinds and EVERY `matrix.Get` that answers on the coordinates
+    the walk visits: the regenerated function returns exactly the modules at the model's `readPositions`, in the
+    model's order (it needs `layers + 1` units of fuel for the `for i, rowOffset := 0, 0; …` loop) -/
+theorem k_extractBits_ok (get : Int → Int → Res Bool) (gp : Nat × Nat → Bool) (L : Nat) (c : Bool) (fuel : Nat) (hf : L < fuel)
+    (hr : ∀ i, i < L → ReadsOK get gp L c i) :
+    Gen.K11b.extractBits fuel c (L : Int) get = .ok (bitsI ((readPositions L c).map gp)) := by
+  obtain ⟨s', e, hs'⟩ := layers_loop get gp L c fuel hf hr
+  unfold Gen.K11b.extractBits
+  dsimp only
+  have hB : (if c = true then (L : Int) * 4 + 11 else (L : Int) * 4 + 14) = ((baseMatrixSize L c : Nat) : Int) := by
+    unfold baseMatrixSize; cases c <;> simp
+  rw [hB, mk_nat _ (baseMatrixSize L c) rfl]
+  simp only [tryR_ok]
+  rw [k_totalBitsInLayer_eq]
+  simp only [tryR_ok]
+  rw [mk_nat _ (totalBitsInLayer L c) rfl]
+  simp only [tryR_ok]
+  cases c with
+  | true =>
+    simp only [if_true, tripUp_one, len, List.length_replicate]
+    rw [show (((baseMatrixSize L true : Nat) : Int) - 0).toNat = baseMatrixSize L true by omega, am_loop_compact L]
+    simp only [next_thenR]
+    rw [e]
+    simp only [brk_thenR, hs']
+  | false =>
+    simp only [Bool.false_eq_true, if_false, tripUp_one]
+    have q1 : Int.tdiv ((baseMatrixSize L false : Nat) : Int) 2 = ((baseMatrixSize L false / 2 : Nat) : Int) := tdiv_natCast _ 2
+    rw [q1]
+    have q2 : Int.tdiv (((baseMatrixSize L false / 2 : Nat) : Int) - 1) 15 = (((baseMatrixSize L false / 2 - 1) / 15 : Nat) : Int) := by
+      have : ((baseMatrixSize L false / 2 : Nat) : Int) - 1 = ((baseMatrixSize L false / 2 - 1 : Nat) : Int) := by
+        have : 1 ≤ baseMatrixSize L false / 2 := by unfold baseMatrixSize; simp; omega
+        omega
+      rw [this]; exact tdiv_natCast _ 15
+    rw [q2]
+    have q3 : Int.tdiv (((baseMatrixSize L false : Nat) : Int) + 1 + 2 * (((baseMatrixSize L false / 2 - 1) / 15 : Nat) : Int)) 2
+        = (((baseMatrixSize L false + 1 + 2 * ((baseMatrixSize L false / 2 - 1) / 15)) / 2 : Nat) : Int) := by
+      have : ((baseMatrixSize L false : Nat) : Int) + 1 + 2 * (((baseMatrixSize L false / 2 - 1) / 15 : Nat) : Int)
+          = ((baseMatrixSize L false + 1 + 2 * ((baseMatrixSize L false / 2 - 1) / 15) : Nat) : Int) := by omega
+      rw [this]; exact tdiv_natCast _ 2
+    rw [q3]
+    rw [show (((baseMatrixSize L false / 2 : Nat) : Int) - 0).toNat = baseMatrixSize L false / 2 by omega]
+    have := am_loop_full L
+    simp only at this
+    rw [this]
+    simp only [next_thenR, body6_eq]
+    rw [e]
+    simp only [brk_thenR, hs']
+
+/-! ### against the model's `extractBits` on a concrete matrix -/
+
+/-- `matrix.Get` of a model matrix -/
+def getOf (m : Matrix) : Int → Int → Res Bool := fun x y => getBit m x.toNat y.toNat
+
+/-- the module the model reads at a position (false where the model's `Get` fails) -/
+def bitOf (m : Matrix) (p : Nat × Nat) : Bool :=
+  match getBit m p.1 p.2 with
+  | .ok b => b
+  | .error _ => false
+
+theorem readAll_ok (m : Matrix) : ∀ (ps : List (Nat × Nat)) (bs : List Bool), readAll m ps = .ok bs →
+    bs = ps.map (bitOf m) ∧ ∀ p, p ∈ ps → getBit m p.1 p.2 = .ok (bitOf m p) := by
+  intro ps
+  induction ps with
+  | nil => intro bs h; simp [readAll] at h; subst h; simp
+  | cons p ps ih =>
+    intro bs h
+    simp only [readAll] at h
+    cases hg : getBit m p.1 p.2 with
+    | error e => rw [hg] at h; simp at h
+    | ok b =>
+      rw [hg] at h
+      cases hr : readAll m ps with
+      | error e => rw [hr] at h; simp at h
+      | ok bs' =>
+        rw [hr] at h
+        simp only [Except.ok.injEq] at h
+        obtain ⟨h1, h2⟩ := ih bs' hr
+        have hb : bitOf m p = b := by simp [bitOf, hg]
+        refine ⟨by rw [← h, h1, List.map_cons, hb], ?_⟩
+        intro q hq
+        rcases List.mem_cons.mp hq with rfl | hq
+        · rw [hg, hb]
+        · exact h2 q hq
+
+theorem sidePos_mem (L : Nat) (c : Bool) (i s j k : Nat) (hi : i < L) (hs : s < 4) (hj : j < rsz L c i) (hk : k < 2) :
+    sidePos L c i s j k ∈ readPositions L c := by
+  rw [readPositions, List.mem_flatMap]
+  exact ⟨i, List.mem_range.mpr hi, List.mem_of_getElem? (layerPositions_get L c i s j k hs hj hk)⟩
+
+when_kernel Gzx.Gen.K11b.extractBits in
+/-- whenever the MODEL extracts the bits of a matrix, the regenerated Go function extracts the same bits -/
+theorem k_extractBits_eq_model (m : Matrix) (L : Nat) (c : Bool) (bs : List Bool)
+    (h : AztecDecoder.extractBits m L c = .ok bs) :
+    Gen.K11b.extractBits (L + 1) c (L : Int) (getOf m) = .ok (bitsI bs) := by
+  obtain ⟨h1, h2⟩ := readAll_ok m _ bs h
+  rw [h1]
+  apply k_extractBits_ok (getOf m) (bitOf m) L c (L + 1) (by omega)
+  intro i hi s j k hs hj hk
+  have := h2 _ (sidePos_mem L c i s j k hi hs hj hk)
+  simpa [getOf] using this
+
+/-- non-vacuity: a 15x15 compact symbol with one layer -/
+example : AztecDecoder.extractBits (List.replicate 15 (List.replicate 15 true)) 1 true = .ok (List.replicate 104 true) := by
+  decide
+
 end Gzx.Obligations.K11b
